@@ -172,7 +172,21 @@ def k9(args):
     return [fr(out), dd]
 
 
-HANDLERS = {1: k1, 2: k2, 8: k8, 9: k9}
+def k10(args):
+    """val_clamp on a whole tensor: values and, per entry, the directional derivative along the given seeds"""
+    (xs,) = args
+    from lnn._utils import val_clamp
+    t = torch.tensor([fl(x[0]) for x in xs], requires_grad=True)
+    v = val_clamp(t)
+    out = []
+    for j in range(len(xs)):
+        (g,) = torch.autograd.grad(v[j], [t], retain_graph=True)
+        dd = sum((F(gv) * sx.q(x[1]) for gv, x in zip(g.tolist(), xs)), F(0))
+        out.append([fr(v[j]), dd])
+    return out
+
+
+HANDLERS = {1: k1, 2: k2, 8: k8, 9: k9, 10: k10}
 
 try:
     import impl_prop
